@@ -232,6 +232,8 @@ def build_conv_gfa1(r):
             walk = walk[:-1]  # circular representation: n segments, n overlaps
         paths.append(["P", [pn, ",".join(s + o for s, o in walk), ",".join(ovs)], gen.gen_tags(r, "gfa1", "P", True, maxn=1)])
     lines += link_recs + conts + paths
+    for _ in range(r.randint(0, 2) if gen.chance(r, 0.3) else 0):
+        lines.insert(r.randint(0, len(lines)), ["#", [gen.choice(r, [" a comment", "no blank", "  two blanks", " with\ttab"])], []])
     return {"version": "gfa1", "lines": lines, "slen": slen}
 
 
@@ -347,6 +349,10 @@ def compare_gfa2(src, slen, recs, text, how):
                 r.pos[0], i, segs[i], segs[i + 1], ov, it, ctx))
         if strip_tags(got_p[r.pos[0]].tags, set()) != strip_tags(r.tags, set()):
             raise Violation("path-tags", "path %s tags differ%s" % (r.pos[0], ctx))
+    want_c = Counter(x.pos[0] for x in src.recs if x.rt == "#")
+    got_c = Counter(x.pos[0] for x in recs if x.rt == "#")
+    if want_c != got_c:
+        raise Violation("comments", "comment lines %s, expected %s%s" % (sorted(got_c.elements()), sorted(want_c.elements()), ctx), how)
     extra = [x for x in recs if x.rt not in ("S", "E", "O", "H", "#")]
     if extra or len([x for x in recs if x.rt == "O"]) != len([x for x in src.recs if x.rt == "P"]):
         raise Violation("invented", "records not derivable from the source: %s%s" % ([x.text() for x in extra], ctx))
